@@ -21,17 +21,18 @@ RULE = ("seeded histories of 1-12 public Sequence operations (all mutators, over
         "entirely clean), stratum B passes the sequences themselves (known aliasing finding). Non-trivial: a mutator ran "
         "while the other view was fresh and that other view was read afterwards.")
 PLAN = {"quick": {"cases": 3000, "jobs": 4, "timeout": 600},
-        "thorough": {"cases": 200000, "jobs": 16, "timeout": 3000, "budget_s": 1500}}
+        "thorough": {"cases": 200000, "jobs": 16, "timeout": 3000, "budget_s": 420}}
 MUTATORS = ["add_abs_cc", "add_abs_note", "add_rel_cc", "add_rel_wait", "add_rel_idx0", "pad", "set_channel", "overwrite_abs",
             "overwrite_rel", "concatenate", "scale", "scale_q", "transpose", "normalise", "quantise", "qnl", "qan", "cutoff",
-            "merge", "iter_abs_edit", "iter_rel_edit"]
+            "merge", "iter_abs_edit", "iter_rel_edit", "iter_abs_peek_edit", "iter_rel_peek_edit", "iter_abs_peek_edit_break",
+            "iter_rel_peek_edit_break"]
 OTHERS = ["read_abs", "read_rel", "read_both", "refresh", "copy_replace", "copy_add", "iter_abs_partial", "iter_rel_partial",
           "split_mut", "split_add", "equals", "pairings", "interleaved", "times_of_type", "channel", "duration",
           "duration_relation", "is_consistent", "is_empty", "to_midi_track", "split_bars", "eq_dunder"]
 OPS = MUTATORS + OTHERS
 FLOORS = {"quick": {"seq_inv.views_events.armed": 20000, "to_rel.events.armed": 5000, "to_abs.events.armed": 5000,
-                    "c04.model_compare": 6000, "#c04.visit.": 120},
-          "thorough": {"seq_inv.views_events.armed": 1000000, "#c04.visit.": 125}}
+                    "c04.model_compare": 6000, "#c04.visit.": 135},
+          "thorough": {"seq_inv.views_events.armed": 1000000, "#c04.visit.": 140}}
 
 
 def _small_spec(rng, start=None):
@@ -61,6 +62,8 @@ def make_case(rng, i, tier):
             op["n"] = rng.randrange(0, 140)
         elif name == "set_channel":
             op["c"] = rng.randrange(0, 4)
+        elif name.endswith("_peek_edit_break"):
+            op["kth"] = rng.randint(1, 3)
         elif name in ("overwrite_abs", "overwrite_rel"):
             op["spec"] = _small_spec(rng, start="abs")
         elif name in ("scale", "scale_q"):
@@ -303,6 +306,36 @@ def run(case, ctx):
                         if x.message_type == MT.NOTE_ON:
                             x.velocity = (x.velocity % 127) + 1
                     m.edit_velocity_of_note_ons(lambda v: (v % 127) + 1)
+                elif name in ("iter_abs_peek_edit", "iter_rel_peek_edit", "iter_abs_peek_edit_break", "iter_rel_peek_edit_break"):
+                    # legal pattern: inside the loop body first read the OTHER view, then edit the yielded message, and make
+                    # no further call before the next message is requested (the generator re-invalidates around each yield
+                    # and when it is exhausted or abandoned)
+                    use_abs = "_abs_" in name
+                    brk = name.endswith("_break")
+                    it = s.messages_abs() if use_abs else s.messages_rel()
+                    tick = 0
+                    kth = 0
+                    for x in it:
+                        if not use_abs and x.message_type == MT.WAIT:
+                            tick += x.time
+                            continue
+                        if x.message_type != MT.NOTE_ON:
+                            continue
+                        kth += 1
+                        if brk and kth < op.get("kth", 1):
+                            continue
+                        if use_abs:
+                            [s.get_sequence_duration_relation, s.is_empty, s.to_midi_track][step % 3]()
+                            t_ev = x.time
+                        else:
+                            [s.get_sequence_duration, s.is_channel_consistent, lambda: s.abs][step % 3]()
+                            t_ev = tick
+                        before = (t_ev,) + orc.fields(x)
+                        x.velocity = (x.velocity % 127) + 1
+                        m.replace_event(before, (t_ev,) + orc.fields(x))
+                        if brk:
+                            break
+                    del it
                 elif name == "iter_abs_partial":
                     for k, x in enumerate(s.messages_abs()):
                         if k >= 1:
